@@ -18,7 +18,7 @@
 //	            "outcome": {"kind": "ret|declared|other|appexc", "value": <value>, "exc": "<pkg>.<Exc>",
 //	                        "msg": "<hex>", "type": <int32>},
 //	            "headers": {"<hex name>": "<hex value>"},
-//	            "tamper": {"name": "<hex>", "type": <int>}        (mem + binary only: rewrite the reply's message header)
+//	            "tamper": {"name": "<hex>", "type": <int>}        (mem + binary / compact: rewrite the reply's message header)
 //	           }, ...]}
 //
 // Response: {"code": 0, "calls": [{
@@ -111,6 +111,8 @@ type recorder struct {
 	finished chan struct{}
 	burst    map[string]burstOutcome // by the request header "c03-burst"
 	burstLog map[string][]invocation
+	// every request / reply frame that travelled while a burst round was in progress
+	burstReqs, burstReps [][]byte
 }
 
 func (r *recorder) reset(script func(service, method string) (interface{}, error)) {
@@ -121,12 +123,18 @@ func (r *recorder) reset(script func(service, method string) (interface{}, error
 func (r *recorder) addReply(b []byte) {
 	r.mu.Lock()
 	r.replies = append(r.replies, append([]byte{}, b...))
+	if r.burst != nil {
+		r.burstReps = append(r.burstReps, append([]byte{}, b...))
+	}
 	r.mu.Unlock()
 }
 func (r *recorder) setRequest(b []byte) {
 	r.mu.Lock()
 	if r.request == nil {
 		r.request = append([]byte{}, b...)
+	}
+	if r.burst != nil {
+		r.burstReqs = append(r.burstReqs, append([]byte{}, b...))
 	}
 	r.mu.Unlock()
 }
@@ -168,6 +176,7 @@ type memTransport struct {
 	pf     *frugal.FProtocolFactory
 	rec    *recorder
 	tamper *tamperSpec
+	proto  string
 	closed chan error
 }
 
@@ -194,7 +203,11 @@ func (m *memTransport) roundTrip(data []byte) ([]byte, error) {
 	frame := append([]byte{}, out.Bytes()...)
 	m.rec.addReply(frame)
 	if m.tamper != nil {
-		frame = tamperFrame(frame, m.tamper)
+		if m.proto == "compact" {
+			frame = tamperFrameCompact(frame, m.tamper)
+		} else {
+			frame = tamperFrame(frame, m.tamper)
+		}
 	}
 	return frame, nil
 }
@@ -247,6 +260,53 @@ func tamperFrame(frame []byte, t *tamperSpec) []byte {
 	body.Write(w[:])
 	binary.BigEndian.PutUint32(w[:], uint32(len(name)))
 	body.Write(w[:])
+	body.Write(name)
+	body.Write(rest)
+	out := make([]byte, 4, 4+body.Len())
+	binary.BigEndian.PutUint32(out, uint32(body.Len()))
+	return append(out, body.Bytes()...)
+}
+
+// tamperFrameCompact does the same on a TCompactProtocol message header: 0x82, version | type << 5 (three bits of
+// the type travel, as in WriteMessageBegin), varint seqid, varint length + name.
+func tamperFrameCompact(frame []byte, t *tamperSpec) []byte {
+	if len(frame) < 9 {
+		return frame
+	}
+	hsize := int(binary.BigEndian.Uint32(frame[5:9]))
+	p := 9 + hsize
+	if len(frame) < p+4 || frame[p] != 0x82 {
+		return frame
+	}
+	vt := frame[p+1]
+	q := p + 2
+	_, n := binary.Uvarint(frame[q:]) // seqid
+	if n <= 0 {
+		return frame
+	}
+	seq := frame[q : q+n]
+	q += n
+	nlen, n2 := binary.Uvarint(frame[q:])
+	if n2 <= 0 || len(frame) < q+n2+int(nlen) {
+		return frame
+	}
+	name := frame[q+n2 : q+n2+int(nlen)]
+	rest := frame[q+n2+int(nlen):]
+	if t.Type != nil {
+		vt = (vt & 0x1f) | ((byte(*t.Type) << 5) & 0xe0)
+	}
+	if t.Name != nil {
+		if b, err := hex.DecodeString(*t.Name); err == nil {
+			name = b
+		}
+	}
+	var body bytes.Buffer
+	body.Write(frame[4:p])
+	body.WriteByte(0x82)
+	body.WriteByte(vt)
+	body.Write(seq)
+	var w [binary.MaxVarintLen64]byte
+	body.Write(w[:binary.PutUvarint(w[:], uint64(len(name)))])
 	body.Write(name)
 	body.Write(rest)
 	out := make([]byte, 4, 4+body.Len())
@@ -649,7 +709,7 @@ func session(reg *labdriver.Registry, raw json.RawMessage) interface{} {
 	var mem *memTransport
 	switch q.Transport {
 	case "", "mem":
-		mem = &memTransport{proc: proc, pf: pf, rec: rec, closed: make(chan error)}
+		mem = &memTransport{proc: proc, pf: pf, rec: rec, proto: q.Proto, closed: make(chan error)}
 		lk = &memLink{mem}
 	case "tcp":
 		lk, err = newTCPLink(proc, pf, rec)
@@ -674,21 +734,26 @@ func session(reg *labdriver.Registry, raw json.RawMessage) interface{} {
 	}
 	out := labdriver.Resp{"code": 0, "calls": results}
 	if len(q.Burst) > 0 {
-		out["burst"] = burst(reg, rec, client, q)
+		out["burst"], out["burst_frames"] = burst(reg, rec, lk, std, client, q)
 	}
 	return out
 }
 
 // burst makes the chosen calls again, concurrently, through the one client
-func burst(reg *labdriver.Registry, rec *recorder, client reflect.Value, q sessionReq) []interface{} {
+//
+// "burst_frames": per round {"round", "requests": [hex], "replies": [hex]}: every frame that travelled during the round
+func burst(reg *labdriver.Registry, rec *recorder, lk link, std *frugal.FStandardClient, client reflect.Value,
+	q sessionReq) ([]interface{}, []interface{}) {
 	type prepared struct {
 		tag  string
 		idx  int
 		m    reflect.Value
 		in   []reflect.Value
 		fctx frugal.FContext
+		rete error
 	}
 	res := []interface{}{}
+	frames := []interface{}{}
 	rounds := q.BurstRounds
 	if rounds <= 0 {
 		rounds = 1
@@ -696,6 +761,7 @@ func burst(reg *labdriver.Registry, rec *recorder, client reflect.Value, q sessi
 	for round := 0; round < rounds; round++ {
 		rec.mu.Lock()
 		rec.burst, rec.burstLog = map[string]burstOutcome{}, map[string][]invocation{}
+		rec.burstReqs, rec.burstReps = nil, nil
 		rec.mu.Unlock()
 		var ps []prepared
 		for _, idx := range q.Burst {
@@ -712,7 +778,7 @@ func burst(reg *labdriver.Registry, rec *recorder, client reflect.Value, q sessi
 			rec.mu.Lock()
 			rec.burst[tag] = burstOutcome{retv, rete}
 			rec.mu.Unlock()
-			ps = append(ps, prepared{tag, idx, m, in, fctx})
+			ps = append(ps, prepared{tag, idx, m, in, fctx, rete})
 		}
 		outs := make([]map[string]interface{}, len(ps))
 		var wg sync.WaitGroup
@@ -722,6 +788,9 @@ func burst(reg *labdriver.Registry, rec *recorder, client reflect.Value, q sessi
 			go func(i int) {
 				defer wg.Done()
 				o := map[string]interface{}{"index": ps[i].idx, "round": round}
+				if ps[i].rete != nil {
+					o["outcome_text"] = hex.EncodeToString([]byte(ps[i].rete.Error()))
+				}
 				outs[i] = o
 				defer func() {
 					if p := recover(); p != nil {
@@ -747,6 +816,7 @@ func burst(reg *labdriver.Registry, rec *recorder, client reflect.Value, q sessi
 		}
 		close(start)
 		wg.Wait()
+		lk.settle(std) // everything the round sent has been recorded
 		rec.mu.Lock()
 		for i := range ps {
 			hs := rec.burstLog[ps[i].tag]
@@ -755,13 +825,23 @@ func burst(reg *labdriver.Registry, rec *recorder, client reflect.Value, q sessi
 			}
 			outs[i]["handler"] = hs
 		}
+		fr := map[string]interface{}{"round": round}
+		hexes := func(bs [][]byte) []string {
+			out := []string{}
+			for _, b := range bs {
+				out = append(out, hex.EncodeToString(b))
+			}
+			return out
+		}
+		fr["requests"], fr["replies"] = hexes(rec.burstReqs), hexes(rec.burstReps)
+		frames = append(frames, fr)
 		rec.burst = nil
 		rec.mu.Unlock()
 		for _, o := range outs {
 			res = append(res, o)
 		}
 	}
-	return res
+	return res, frames
 }
 
 // prepareCall builds the reflected method, its arguments and the handler's scripted outcome for one call
